@@ -335,7 +335,7 @@ def main(run):
         if name not in safe:
             continue
         m64, m32 = sas.load(name, "double"), sas.load(name, "single")
-        q = [np.array([0.01, 0.05, 0.1])]
+        q = [np.logspace(-3, -0.3, 12)]          # up to 0.5 1/Ang: the higher-order terms only matter at large arguments
         k64 = m64.make_kernel(q); k32 = m32.make_kernel(q)
         try:
             a = np.asarray(call_kernel(k64, dict(pars), cutoff=1e-5)); b = np.asarray(call_kernel(k32, dict(pars), cutoff=1e-5))
